@@ -226,6 +226,17 @@ def run_case(case):
                     if abs(g) >= 0.3 and np.sign(s.mean()) != np.sign(g):
                         out["violation"] = {"kind": "bias-direction", "detail": f"{desc}: coordinate ({i},{j}) gamma={g}: mean zeta {s.mean():.4f} points against the force"}
                         return out
+                if g != 0:
+                    # extreme-value test: a sample in a region whose total probability over n draws is below 1e-9 is
+                    # (practically) impossible under the Bal-Neyts law - KS cannot see a handful of such samples
+                    gg = min(max(g, -709.782712), 709.782712)  # the sampler documents that gamma is clipped there
+                    lo_p = float(cdf(np.array([s.min()]), gg)[0]) * len(s)
+                    hi_p = float(1.0 - cdf(np.array([s.max()]), gg)[0]) * len(s)
+                    worst = min(lo_p, hi_p)
+                    if 0 <= worst < 1e-9 and abs(g) >= 5:
+                        bad = s.min() if lo_p < hi_p else s.max()
+                        out["violation"] = {"kind": "impossible-sample", "detail": f"{desc}: coordinate ({i},{j}) gamma={g!r}: a step zeta={bad:.4f} occurred although the density gives it a total probability of {worst:.1e} over {len(s)} steps (against-the-force step at large gamma)"}
+                        return out
                 pmin = min(pmin, p)
                 if p < 1e-7:
                     out["violation"] = {"kind": kind, "detail": f"{desc}: coordinate ({i},{j}) gamma={g!r}: zeta samples reject the Bal-Neyts CDF (KS p={p:.2e}, mean zeta {s.mean():.4f}, n={len(s)})"}
